@@ -140,11 +140,20 @@ let validate_elt (pts : bool) (uacts : act list) (scripts : (int * act list) lis
       chk "call" (if g.calling then 1 else 0);
       chk "loop" (if g.looping then 1 else 0) end;
     chk "lp" (if e.ptr then 1 else 0) in
+  (* instrumentation points are optional (see extract/C04_driver.ml): a visible step of the thread
+     releases a point the implementation did not pass *)
+  let rec skip_point x =
+    let nx = if x = 0 then next_owner () else next_child () in
+    match snd nx with
+    | Some _ when pts && not passed.(x) -> passed.(x) <- true; eager x; skip_point x
+    | _ -> () in
   let need_owner k what =
-    if owner_gated () then rej "the owner performs %s but the model's owner is held at a point / event" what;
+    skip_point 0;
+    if owner_gated () then rej "the owner performs %s but the model's owner is held before ~EventLoopThread" what;
     if fst (next_owner ()) <> k then rej "the owner performs %s, the model's owner is elsewhere" what in
   let need_child k what =
-    if child_gated () then rej "the child performs %s but the model's child is held at a point" what;
+    skip_point 1;
+    if child_gated () then rej "the child performs %s but the model's child is held" what;
     if fst (next_child ()) <> k then rej "the child performs %s, the model's child is elsewhere" what in
   let handle (line : string) =
     let w = split_ws line in
@@ -165,11 +174,12 @@ let validate_elt (pts : bool) (uacts : act list) (scripts : (int * act list) lis
         (match !st.eo with OUser | ODtor | OQuit -> () | _ -> rej "startLoop() returned, the model's owner is still inside it");
         if not (List.mem "nonnull=1" rest) then rej "startLoop() returned NULL";
         (match !st.got with Some true -> () | _ -> rej "startLoop() returned non-null, the model's result differs")
-    | ["e"; "T0"; "call"; "destroy"] -> incr destroy_tok; eager 0
+    | ["e"; "T0"; "call"; "destroy"] -> skip_point 0; incr destroy_tok; eager 0
     | ["e"; "T0"; "ret"; "destroy"] ->
         (match !st.eo with ODone -> () | _ -> rej "~EventLoopThread returned, the model's owner is not done")
     | ["e"; tx; "x"; t] ->
         if tnum tx <> 1 then rej "task %s executed on T%d, not on the loop's thread" t (tnum tx);
+        if Queue.is_empty expected then skip_point 1;
         if Queue.is_empty expected then rej "implementation runs task %s, the model runs none here" t;
         let e = Queue.pop expected in
         if e <> "x " ^ t then rej "implementation runs task %s, the model runs '%s'" t e
@@ -203,6 +213,7 @@ let validate_elt (pts : bool) (uacts : act list) (scripts : (int * act list) lis
          | "unlock", 0 when obj = !m_elt ->
              (match !st.eo with OUnlock -> do_step EO | _ -> rej "owner unlocks mutex_ at an unexpected point"); check_obs obs; eager 0
          | "lock", 1 when obj = !m_elt ->
+             skip_point 1;
              (match !st.ec with
               | CLock1 | CLock2 -> do_step EC
               | _ -> rej "child locks mutex_ at an unexpected point");
@@ -229,6 +240,8 @@ let validate_elt (pts : bool) (uacts : act list) (scripts : (int * act list) lis
          | "point", _ when obj = "user" || obj = "tf_exit" -> ()
          | "point", _ ->
              if not pts then rej "point %s in a run without points" obj;
+             (match snd (if x = 0 then next_owner () else next_child ()) with
+              | Some p when p <> obj && not passed.(x) -> skip_point x | _ -> ());
              let nx = if x = 0 then next_owner () else next_child () in
              (match snd nx with
               | Some p when p = obj && not passed.(x) -> passed.(x) <- true
@@ -247,6 +260,7 @@ let validate_elt (pts : bool) (uacts : act list) (scripts : (int * act list) lis
              do_step ECRead; check_obs obs; eager 1
          | "read", _ -> ()
          | "poll", 1 ->
+             skip_point 1;
              (match !st.ec, !st.ls.pc with CLoop, LPoll -> () | _ -> rej "child polls, the model's child is not in poll");
              if child_gated () then rej "child polls but the model's child is held at a point";
              let n = int_of_string res in
@@ -260,6 +274,7 @@ let validate_elt (pts : bool) (uacts : act list) (scripts : (int * act list) lis
              if poll_ready !st.ls.sg then rej "the implementation is stuck in poll, the model's poll is ready";
              check_obs obs; stuck := true
          | "join", 0 ->
+             skip_point 0;
              (match !st.eo with OJoin -> do_step EO | _ -> rej "owner joins at an unexpected point"); check_obs obs
          | "exit", 1 -> (match !st.ec with CExited -> () | _ -> rej "child exits, the model's child has not finished")
          | "exit", 0 -> ()
